@@ -343,6 +343,8 @@ func (g *gen) stmtInsert(db *MDB, t *MTable, nrows int) Stmt {
 	if text {
 		if _, ok := s.SQLText(); !ok {
 			s.ViaText = false
+		} else if g.r.Chance(0.15) {
+			s.LitStyle = 1 + g.r.Intn(2)
 		}
 	}
 	return s
@@ -381,6 +383,8 @@ func (g *gen) stmtUpdate(db *MDB, t *MTable, small bool) Stmt {
 	if text {
 		if _, ok := s.SQLText(); !ok || !condTextOK(s.Where) {
 			s.ViaText = false
+		} else if g.r.Chance(0.15) {
+			s.LitStyle = 1 + g.r.Intn(2)
 		}
 	}
 	return s
